@@ -6,6 +6,11 @@ import os
 V = os.path.dirname(os.path.dirname(os.path.abspath(__file__)))
 TLC = "TLA+ spec + TLC"
 CHECKS = {
+    "C12": dict(
+        text="SigCodec.tla + DER.tla define the three signature encodings and their strict decoders on byte sequences. TLC checks on the model that decode inverts encode for all orders 2..24 (64 thorough) x all (r, s) and boundary orders, that raw length is 2*ceil(bitlen/8), and that every accepted raw / DER candidate (all 2-byte raw strings; all strings over a small alphabet up to 8-9 bytes) is the canonical encoding of what it decodes to. Every recorded call of the real encoders, decoders and integer/byte helpers (toy orders exhaustively, 17 curve orders with boundary values, all byte strings <= 2 bytes, DER mutation corpus) is then decided by TLC trace validation.",
+        note="Trusted: TLC, CPython used to build inputs. Decoder inputs beyond 2 bytes are structured mutations, not exhaustive.",
+        technique="TLC model checking of SigCodec.tla/DER.tla + TLC trace validation (C->S) of recorded codec calls",
+        ref="3/C12"),
     "C13": dict(
         text="SigCodec.tla defines low-S on byte sequences (full production size). TLC proves Canon = min(s, n-s) <= n/2 "
              "against native integers for all n <= 300 (1200 thorough) and all s, then decides every recorded call of the three "
